@@ -49,4 +49,7 @@ def designed(rng, n):
             lines.append('G1 E%s F2400' % e)               # the recovery, inside the region: skipped, owed
         lines += ['G1 X30 Y30 F3000', 'G1 X31 Y30 E%g F1200' % (float(e) + 1)]
         out.append(dict(g90e=False, enter=None, exit=None, ext=dict(genprog.DEFAULT_EXT), regions=R, events=[('cmd', l) for l in lines], style='eonly', alen=L))
-    return out
+    # an owed recovery made up where the tracked E is a binary64 residue of either sign (+-1e-16): the made-up G92 E must still be read by the
+    # printer as that number
+    from props import C05
+    return out + C05.designed()
